@@ -55,6 +55,8 @@ GLOBAL_REWRITES = [
     ('R1b', r'\bT::one\(\)', 'N::one()', 'monomorphisation'),
     ('R7a', r'(?m)^\s*#\[(inline|allow\([^\]]*\)|must_use)\]\s*$', '', 'attribute dropped'),
     ('R12', r'\bfor _ in\b', 'for _it in', 'loop variable must be named'),
+    ('R9', r'\bfor &(\w+) in (\w+)\.iter\(\)\.take\(([^{}]+?)\)\s*\{', r'for _i9 in 0..(if (\3) < \2.len() { \3 } else { \2.len() }) { let \1 = \2[_i9];',
+     'Iterator::take on a slice/array iterator: `for &x in a.iter().take(n) {` visits a[0..min(n, a.len())] in order'),
     ('R14', r'(?m)^\s*use rust_decimal::[^;]*;\s*$', '', 'import used only by a cut (out-of-reach) branch'),
 ]
 
